@@ -38,17 +38,19 @@ FineVerdict(P) ==
 Rename(v, clause) == IF v[1] = "ok" THEN v ELSE <<clause, v[2], v[3], v[4]>>
 
 DecodeCheck ==
-  LET P == C.prog  g == GeneratorError(P) IN
+  LET P == C.prog
+      E == Flat(P)
+      g == IF ~WellFormed(P) THEN "ast-not-well-formed" ELSE FlatError(E) IN
   IF g # "" THEN PrintT(<<"VERDICT", tid, 0, "generator-error", "harness", g, "", "">>)
-  ELSE LET E == Flat(P) IN
-       /\ Report("bqskit", JudgeWith(P, C.bq, FALSE, E))
+  ELSE /\ Report("bqskit", JudgeWith(P, C.bq, FALSE, E))
        /\ Report("qiskit", JudgeWith(P, C.qk, TRUE, E))
 
 RtCheck ==
-  LET P == C.prog  g == GeneratorError(P) IN
+  LET P == C.prog
+      E == Flat(P)
+      g == IF ~WellFormed(P) THEN "ast-not-well-formed" ELSE FlatError(E) IN
   IF g # "" THEN PrintT(<<"VERDICT", tid, 0, "generator-error", "harness", g, "", "">>)
-  ELSE LET E == Flat(P)
-           pre == JudgeWith(P, C.pre, TRUE, E) IN
+  ELSE LET pre == JudgeWith(P, C.pre, TRUE, E) IN
        IF pre[1] # "ok" THEN PrintT(<<"VERDICT", tid, 0, "generator-error", "harness", "built-circuit-differs:" \o pre[1] \o ":" \o pre[2], pre[3], pre[4]>>)
        ELSE IF C.enc.status # "ok" THEN PrintT(<<"VERDICT", tid, 0, "encode-fails", "bqskit", C.enc.err, C.suspect, C.suspect>>)
        ELSE /\ IF C.bq.status # "ok" THEN PrintT(<<"VERDICT", tid, 0, "roundtrip-unreadable", "bqskit", C.bq.err, C.suspect, C.suspect>>)
@@ -66,10 +68,14 @@ RtuCheck ==
   ELSE IF ~SameUpToPhase(ObsTable(C.obs), SemTable(C.ops, C.r)) THEN PrintT(<<"VERDICT", tid, 0, "roundtrip-unitary-differs", "bqskit", "table", "exact-domain", "">>)
   ELSE TRUE
 
-Init == tid \in 1..Len(Cases)
-Next == UNCHANGED tid
+\* One behaviour per case.  The cases are reached from a few lane states (tid < 0) rather than being initial states,
+\* because TLC checks the invariant on initial states with a single thread but on successors with all its workers.
+Lanes == 16
+Init == tid \in -Lanes..-1
+Next == tid < 0 /\ tid' \in {i \in 1..Len(Cases) : i % Lanes = (-tid) - 1}
 Spec == Init /\ [][Next]_tid
-Check == CASE C.kind = "decode" -> DecodeCheck
+Check == tid < 0 \/
+         CASE C.kind = "decode" -> DecodeCheck
            [] C.kind = "rt" -> RtCheck
            [] C.kind = "rtu" -> RtuCheck
 =============================================================================
